@@ -103,7 +103,7 @@ pub fn table_case(rec: &mut Rec, server_id: &str, prefix: &str, regs: &[(u8, usi
             let resp = router.handle_http_request(&req, &7u32);
             let invoked = log.lock().unwrap().clone();
             let mut out = Vec::new();
-            resp.write_all(&mut out).unwrap();
+            let _ = resp.write_all(&mut out);
             // oracle: exactly the first-registered handler for (method, abs_path), once; else 404
             let abs = req.uri().get_abs_path().as_bytes().to_vec();
             let want: Option<usize> = expected.iter().find(|(k, _)| k.0 == m && k.1 == abs).map(|(_, id)| *id);
